@@ -209,7 +209,7 @@ func caseC07(c *Ctx) {
 	p := DefaultProfile()
 	p.Steps = 200
 	p.PCached = 0.75
-	p.Scale(6, "CacheRegister")
+	p.Scale(6, "CacheRegister", "CacheReplace")
 	p.Scale(3, "CacheUnregister", "BuilderNew", "RelSet", "RemoveEntity", "BatchRemoveEntities", "BatchSetRel", "BatchExchange", "RelExchangeBatch", "BatchAdd", "BatchRemove")
 	p.W["Reset"] = 4
 	p.Zero("RegisterType", "Set", "WritePtr")
